@@ -56,12 +56,24 @@ class ModelNotImplemented(Exception):
     """the documented outcome for an undetermined MUSS/prefix-operator node"""
 
 
-def reference_model(ahb, evaluations, soll_is_required):
+def reference_model(ahb, evaluations, soll_is_required, parts_of=None):
     """returns the expected [(discriminator, status|None)] or raises ModelNotImplemented"""
     out = []
+    parts_of = parts_of or {}
+
+    def evaluated(expression):
+        parts = parts_of.get(expression)
+        if not parts:
+            return evaluations[expression]
+        # several modal-mark parts: the first part whose requirement constraints are fulfilled decides, otherwise the
+        # last one (each part evaluated on its own; the selection is the model's)
+        for part in parts:
+            if evaluations[part][1] is True:
+                return evaluations[part]
+        return evaluations[parts[-1]]
 
     def own_status(expression):
-        indicator, fulfilled = evaluations[expression]
+        indicator, fulfilled = evaluated(expression)
         if indicator == "SOLL":
             indicator = "MUSS" if soll_is_required else "KANN"
         if fulfilled is False:
@@ -109,7 +121,9 @@ def generate(seed, tier="quick"):
     rnd = rng(seed, "c13")
     big = tier == "thorough" and seed % 4 == 0  # deeper bounds for a quarter of the thorough runs
     world, cer, universe = gen_world(rnd)
-    pool = gen_expression_pool(rnd, universe, depth=(0, 3) if big else (0, 2), max_parts=4 if big else 3)
+    parts_of = {}
+    pool = gen_expression_pool(rnd, universe, depth=(0, 3) if big else (0, 2), max_parts=4 if big else 3,
+                               parts_of=parts_of)
     entry = "deep" if rnd.random() < 0.8 else "level"
     if entry == "deep":
         if big:
@@ -138,7 +152,9 @@ def generate(seed, tier="quick"):
         if rnd.random() < 0.4:
             for both in requests:
                 both["op"]["same_objects"] = True
-    return {"property": PROP_ID, "seed": seed, "profile": profile, "world": world, "requests": requests}
+    used = {n["e"] for n, _ in walk(ahb) if n["t"] != "p"}
+    return {"property": PROP_ID, "seed": seed, "profile": profile, "world": world, "requests": requests,
+            "parts_of": {e: p for e, p in parts_of.items() if e in used and len(p) > 1}}
 
 
 summarise = summarise_validation
@@ -175,7 +191,7 @@ def shrink(scenario):
 
 
 # ------------------------------------------------------------------------------------------------------ oracle
-def _judge(request, outcome, evaluations, verdict):
+def _judge(request, outcome, evaluations, verdict, parts_of=None):
     op = request["op"]
     broken = {e: v for e, v in evaluations.items() if v[0] in ("ERROR", "INVALID")}
     if broken:
@@ -184,7 +200,7 @@ def _judge(request, outcome, evaluations, verdict):
              f"{request['rid']}: evaluating single node expressions alone with non-yielding peers gave {broken}")
         return
     try:
-        expected = {"ok": reference_model(op["ahb"], evaluations, op["soll"])}
+        expected = {"ok": reference_model(op["ahb"], evaluations, op["soll"], parts_of)}
     except ModelNotImplemented:
         expected = {"exc": "NotImplementedError"}
     if "ok" in outcome:
@@ -234,6 +250,7 @@ def execute(scenario):
     observed = [r for r in scenario["requests"] if not r.get("fault")]
     for request in observed:
         expressions = [n["e"] for n, _ in walk(request["op"]["ahb"]) if n["t"] != "p"]
+        expressions += [part for e in expressions for part in (scenario.get("parts_of") or {}).get(e, [])]
         evaluations[request["rid"]] = (
             pristine(evaluate_expressions_alone, scenario, expressions, request["rid"]) if expressions else {}
         )
@@ -247,5 +264,5 @@ def execute(scenario):
     verdict["probes"]["validations"] = len(scenario["requests"])
     for request in observed:
         outcome = strip_msg(outcomes.get(request["rid"], {"missing": True}))
-        _judge(request, outcome, evaluations[request["rid"]], verdict)
+        _judge(request, outcome, evaluations[request["rid"]], verdict, scenario.get("parts_of"))
     return verdict
